@@ -1094,6 +1094,210 @@ def message_stream(ctx: Ctx, book: Book, cover: Cover, do_nlri: Any, do_attr: An
 
 
 # ---------------------------------------------------------------------------------------------
+# S7: equality / hash / index over PAIRS of routes that differ in exactly one field
+
+
+def pair_groups(rng) -> list[tuple[str, list[tuple[str, Any, Any]]]]:
+    """For every family: a base route and variants obtained by changing ONE argument of the class's own
+    factory (also the fields `__eq__` leaves out by design: EVPN labels and ESI, label stacks of 1, 2
+    and 3 labels). Returns (group, [(field, value label, object)]); field '' is the base, built twice."""
+    from exabgp.bgp.message.open.asn import ASN
+    from exabgp.bgp.message.update.attribute.community.extended.rt import RouteTargetASN2Number, RouteTargetIPNumber
+    from exabgp.bgp.message.update.nlri.cidr import CIDR
+    from exabgp.bgp.message.update.nlri.evpn.ethernetad import EthernetAD
+    from exabgp.bgp.message.update.nlri.evpn.mac import MAC
+    from exabgp.bgp.message.update.nlri.evpn.multicast import Multicast
+    from exabgp.bgp.message.update.nlri.evpn.prefix import Prefix
+    from exabgp.bgp.message.update.nlri.evpn.segment import EthernetSegment
+    from exabgp.bgp.message.update.nlri.ipvpn import IPVPN
+    from exabgp.bgp.message.update.nlri.label import Label
+    from exabgp.bgp.message.update.nlri.mup.dsd import DirectSegmentDiscoveryRoute
+    from exabgp.bgp.message.update.nlri.mup.isd import InterworkSegmentDiscoveryRoute
+    from exabgp.bgp.message.update.nlri.mup.t1st import Type1SessionTransformedRoute
+    from exabgp.bgp.message.update.nlri.mup.t2st import Type2SessionTransformedRoute
+    from exabgp.bgp.message.update.nlri.mvpn.sharedjoin import SharedJoin
+    from exabgp.bgp.message.update.nlri.mvpn.sourcead import SourceAD
+    from exabgp.bgp.message.update.nlri.mvpn.sourcejoin import SourceJoin
+    from exabgp.bgp.message.update.nlri.qualifier import ESI, EthernetTag, Labels, PathInfo, RouteDistinguisher
+    from exabgp.bgp.message.update.nlri.qualifier import MAC as MACQUAL
+    from exabgp.bgp.message.update.nlri.rtc import RTC
+    from exabgp.bgp.message.update.nlri.sr_policy import SRPolicyNLRI
+    from exabgp.bgp.message.update.nlri.vpls import VPLS
+    from exabgp.protocol.family import AFI, SAFI
+    from exabgp.protocol.ip import IP
+
+    from harness import roundtriprig as R
+
+    def rd(s: str, n: int) -> Any:
+        return RouteDistinguisher.make_from_elements(s, n)
+
+    def lab(*ls: int) -> Any:
+        return Labels.make_labels(list(ls), True)
+
+    def ip(s: str) -> Any:
+        return IP.from_string(s)
+
+    r16 = rng.randrange(1, 65535)
+    r20 = rng.randrange(16, 1048575)
+    RDS = [rd('65000', 7), rd('10.0.0.2', 100), rd('10.0.0.1', r16)]
+    ESIS = [ESI(bytes([1] * 10)), ESI(bytes(range(10))), ESI(bytes([rng.randrange(1, 256) for _ in range(10)]))]
+    ETAGS = [EthernetTag.make_etag(0), EthernetTag.make_etag(1001), EthernetTag.make_etag(4294967295)]
+    STACKS1 = [lab(200), lab(r20)]
+    STACKS2 = [lab(100, 300), lab(200, 300), lab(200, 400), lab(r20, 300)]
+    STACKS3 = [lab(100, 300, 500), lab(200, 300, 500), lab(100, 300, 600)]
+    groups: list[tuple[str, list[tuple[str, Any, Any]]]] = []
+
+    def group(name: str, fn: Any, base: dict, alts: dict) -> None:
+        made: list[tuple[str, Any, Any]] = []
+        for rep in range(2):
+            try:
+                made.append(('', 'base', fn(**base)))
+            except Exception:  # noqa: BLE001
+                return
+        for field, values in alts.items():
+            for i, v in enumerate(values):
+                kw = dict(base)
+                if isinstance(field, tuple):
+                    kw.update(dict(zip(field, v)))
+                    fname = '+'.join(field)
+                else:
+                    kw[field] = v
+                    fname = field
+                try:
+                    made.append((fname, f'{fname}#{i}', fn(**kw)))
+                except Exception:  # noqa: BLE001
+                    continue
+        groups.append((name, made))
+
+    v4, v6 = ip('192.0.2.1'), ip('2001:db8::1')
+    for fl, addr, other in ((4, v4, ip('192.0.2.2')), (6, v6, ip('2001:db8::2'))):
+        group(f'EVPN MAC ip{fl}', MAC.make_mac,
+              dict(rd=rd('10.0.0.1', 100), esi=ESI.make_default(), etag=EthernetTag.make_etag(1000), mac=MACQUAL('aa:bb:cc:dd:ee:ff'), maclen=48, label=lab(100), ip=addr),
+              dict(rd=RDS, esi=ESIS, etag=ETAGS, mac=[MACQUAL('aa:bb:cc:dd:ee:00'), MACQUAL('00:00:00:00:00:00')], label=STACKS1 + STACKS2 + STACKS3, ip=[other, None]))
+        group(f'EVPN Prefix ip{fl}', Prefix.make_prefix,
+              dict(rd=rd('10.0.0.1', 100), esi=ESI.make_default(), etag=EthernetTag.make_etag(1000), label=lab(100), ip=ip('10.2.2.0') if fl == 4 else ip('2001:db8:2::'), iplen=24 if fl == 4 else 48, gwip=addr),
+              dict(rd=RDS, esi=ESIS, etag=ETAGS, label=STACKS1, ip=[ip('10.2.3.0') if fl == 4 else ip('2001:db8:3::')], iplen=[25 if fl == 4 else 64, 0], gwip=[other]))
+        group(f'EVPN Multicast ip{fl}', Multicast.make_multicast, dict(rd=rd('10.0.0.1', 100), etag=EthernetTag.make_etag(1000), ip=addr), dict(rd=RDS, etag=ETAGS, ip=[other]))
+        group(f'EVPN EthernetSegment ip{fl}', EthernetSegment.make_ethernetsegment, dict(rd=rd('10.0.0.1', 100), esi=ESI.make_default(), ip=addr), dict(rd=RDS, esi=ESIS, ip=[other]))
+        afi = AFI.ipv4 if fl == 4 else AFI.ipv6
+        src, grp = (ip('10.1.1.1'), ip('232.1.1.1')) if fl == 4 else (ip('2001:db8::10'), ip('ff3e::1'))
+        src2, grp2 = (ip('10.1.1.2'), ip('232.1.1.2')) if fl == 4 else (ip('2001:db8::11'), ip('ff3e::2'))
+        group(f'MVPN SourceAD ip{fl}', SourceAD.make_sourcead, dict(rd=rd('10.0.0.1', 100), afi=afi, source=src, group=grp), dict(rd=RDS, source=[src2], group=[grp2]))
+        for cls, mk in ((SharedJoin, SharedJoin.make_sharedjoin), (SourceJoin, SourceJoin.make_sourcejoin)):
+            group(f'MVPN {cls.__name__} ip{fl}', mk, dict(rd=rd('10.0.0.1', 100), afi=afi, source=src, group=grp, source_as=65000), dict(rd=RDS, source=[src2], group=[grp2], source_as=[1, 65001, 4200000000, rng.randrange(2, 65000)]))
+        bits = 32 if fl == 4 else 128
+        pfx, pfx2 = (ip('10.9.0.0'), ip('10.8.0.0')) if fl == 4 else (ip('2001:db8:9::'), ip('2001:db8:8::'))
+        group(f'MUP ISD ip{fl}', InterworkSegmentDiscoveryRoute.make_isd, dict(rd=rd('10.0.0.1', 100), prefix_ip_len=16 if fl == 4 else 48, prefix_ip=pfx, afi=afi), dict(rd=RDS, prefix_ip_len=[24 if fl == 4 else 64], prefix_ip=[pfx2]))
+        group(f'MUP DSD ip{fl}', DirectSegmentDiscoveryRoute.make_dsd, dict(rd=rd('10.0.0.1', 100), ip=addr, afi=afi), dict(rd=RDS, ip=[other]))
+        group(f'MUP T1ST ip{fl}', Type1SessionTransformedRoute.make_t1st,
+              dict(rd=rd('10.0.0.1', 100), prefix_ip_len=bits, prefix_ip=addr, teid=12345, qfi=9, endpoint_ip_len=bits, endpoint_ip=other, source_ip_len=bits, source_ip=src if fl == 4 else src, afi=afi),
+              {'rd': RDS, 'prefix_ip': [other], 'teid': [0, 4294967295, rng.randrange(1, 2**32)], 'qfi': [0, 63], 'endpoint_ip': [addr], 'source_ip': [src2], ('source_ip_len', 'source_ip'): [(0, b'')]})
+        group(f'MUP T2ST ip{fl}', Type2SessionTransformedRoute.make_t2st, dict(rd=rd('10.0.0.1', 100), endpoint_len=bits + 32, endpoint_ip=addr, teid=12345, afi=afi), {'rd': RDS, 'endpoint_ip': [other], 'teid': [0, 4294967295], ('endpoint_len', 'teid'): [(bits, 0), (bits + 16, 0x1234)]})
+        group(f'SR-policy ip{fl}', SRPolicyNLRI.create, dict(afi=afi, distinguisher=1, color=100, endpoint=str(addr)), dict(distinguisher=[0, 4294967295], color=[0, 4294967295, rng.randrange(2**32)], endpoint=[str(other)]))
+        cidr = CIDR.create_cidr((R.v4 if fl == 4 else R.v6)('10.0.0.0' if fl == 4 else '2001:db8::'), 24 if fl == 4 else 48)
+        cidr2 = CIDR.create_cidr((R.v4 if fl == 4 else R.v6)('10.0.1.0' if fl == 4 else '2001:db8:1::'), 24 if fl == 4 else 48)
+        cidr3 = CIDR.create_cidr((R.v4 if fl == 4 else R.v6)('10.0.0.0' if fl == 4 else '2001:db8::'), 25 if fl == 4 else 49)
+        paths = [PathInfo.NOPATH, PathInfo.make_from_integer(1), PathInfo.make_from_integer(rng.randrange(2, 2**32))]
+        group(f'Label ip{fl}', Label.from_cidr, dict(cidr=cidr, afi=afi, safi=SAFI.nlri_mpls, path_info=PathInfo.DISABLED, labels=lab(100)), dict(cidr=[cidr2, cidr3], path_info=paths, labels=STACKS1 + STACKS2 + STACKS3))
+        group(f'IPVPN ip{fl}', IPVPN.from_cidr, dict(cidr=cidr, afi=afi, safi=SAFI.mpls_vpn, path_info=PathInfo.DISABLED, labels=lab(100), rd=rd('10.0.0.1', 100)), dict(cidr=[cidr2, cidr3], path_info=paths, labels=STACKS1 + STACKS2 + STACKS3, rd=RDS))
+    group('EVPN EthernetAD', EthernetAD.make_ethernetad, dict(rd=rd('10.0.0.1', 100), esi=ESI.make_default(), etag=EthernetTag.make_etag(1000), label=lab(100)), dict(rd=RDS, esi=ESIS, etag=ETAGS, label=STACKS1))
+    group('VPLS', VPLS.make_vpls, dict(rd=rd('10.0.0.1', 100), endpoint=5, base=10702, offset=1, size=8), dict(rd=RDS, endpoint=[0, 6, 65535], base=[0, 10703, 1048567], offset=[0, 2, 65535], size=[0, 1, 7]))
+    group('RTC', RTC.make_rtc, dict(origin=ASN(65000), rt=RouteTargetASN2Number.make_route_target(ASN(65000), 100)),
+          dict(origin=[ASN(0), ASN(65001), ASN(4200000000)], rt=[RouteTargetASN2Number.make_route_target(ASN(65000), 101), RouteTargetASN2Number.make_route_target(ASN(65001), 100), RouteTargetIPNumber.make_route_target('10.0.0.1', 5), None]))
+
+    # FlowSpec through the text grammar (one component or the RD changed at a time)
+    def flow(match: str, rd_: str = '') -> Any:
+        rs = R.api_routes('announce flow route { %smatch { %s } then { discard; } }' % (f'rd {rd_}; ' if rd_ else '', match))
+        if not rs:
+            raise ValueError('refused')
+        return rs[0].nlri
+
+    base_m = dict(destination='10.0.0.0/24', source='192.0.2.0/24', port='=80')
+
+    def flow_from(destination: str, source: str, port: str, rd_: str = '') -> Any:
+        return flow(f'destination {destination}; source {source}; port {port};', rd_)
+
+    group('Flow ipv4', flow_from, dict(base_m), dict(destination=['10.0.1.0/24', '10.0.0.0/25'], source=['192.0.3.0/24'], port=['=81', '>80', '=80 =81']))
+    group('Flow-vpn ipv4', flow_from, dict(base_m, rd_='65000:1'), dict(destination=['10.0.1.0/24'], port=['=81'], rd_=['65000:2', '10.0.0.1:1']))
+
+    # BGP-LS from bytes (corpus Node NLRI): the RD (VPN SAFI) and one descriptor byte changed
+    def bgpls(safi: int, data: str) -> Any:
+        x, _ = R.decode_nlri(AFI.bgpls, SAFI.from_int(safi), bytes.fromhex(data), False)
+        return x
+
+    node = '03' + '0000000000000001' + '01000008' + '020000040000fffd'
+    node2 = '03' + '0000000000000001' + '01000008' + '020000040000fffe'
+
+    def hdr(payload: str) -> str:
+        return '0001' + '%04x' % (len(payload) // 2) + payload
+
+    group('BGP-LS node', bgpls, dict(safi=71, data=hdr(node)), dict(data=[hdr(node2)]))
+    group('BGP-LS-VPN node', bgpls, dict(safi=72, data=hdr('0000fde800000064' + node)), dict(data=[hdr('0000fde800000065' + node), hdr('0000fde800000064' + node2)]))
+    return groups
+
+
+def pair_stream(ctx: Ctx, book: Book) -> None:
+    """The decided oracle for "equal routes have equal indexes and hashes; routes that differ on the wire
+    do not share an index", on pairs that differ in exactly one field (or in none)."""
+    from harness import roundtriprig as R
+
+    IP_CLASSES = ('INET', 'Label', 'IPVPN')
+    for name, made in pair_groups(ctx.rng):
+        objs = []
+        for field, tag, x in made:
+            try:
+                wire = bytes(x.pack_nlri(R.Sess.get(R.has_path(x) and R.sendable(x))))
+            except Exception:  # noqa: BLE001
+                wire = None
+            objs.append((field, tag, x, wire))
+            # what was encoded, decoded: one more way to reach the same value
+            if wire is not None and R.sendable(x):
+                try:
+                    y, rest = R.decode_nlri(x.afi, x.safi, wire, R.has_path(x))
+                    if not rest and y is not R.NLRI.INVALID:
+                        objs.append((field, tag + ':decoded', y, wire))
+                except Exception:  # noqa: BLE001
+                    pass
+        for i in range(len(objs)):
+            for j in range(i + 1, len(objs)):
+                fa, ta, a, wa = objs[i]
+                fb, tb, b, wb = objs[j]
+                if fa and fb and fa != fb:
+                    continue  # more than one field differs
+                field = fa or fb or 'none'
+                if ctx.time_left() < 3:
+                    ctx.notes.append('budget reached in the pair stream')
+                    return
+                ctx.evaluations += 1
+                ctx.count(f'pair:{name.split()[0]}:{"same" if ta.split(":")[0] == tb.split(":")[0] else field}')
+                cls = type(a).__name__
+                replay = {'stream': 'pair', 'group': name, 'a': ta, 'b': tb, 'wire_a': hx(wa or b''), 'wire_b': hx(wb or b'')}
+                try:
+                    eq, eq2, ne = bool(a == b), bool(b == a), bool(a != b)
+                    ha, hb = hash(a), hash(b)
+                    ia, ib = bytes(a.index()), bytes(b.index())
+                except Exception as e:  # noqa: BLE001
+                    book.add('index-pair', cls, 'eq/hash/index-raises', R.err_name(e), wa or b'', f'{ta} vs {tb}', replay)
+                    continue
+                what = f'{name}: {a} [{ta}] vs {b} [{tb}]'
+                if eq != eq2 or eq == ne:
+                    book.add('index-pair', cls, '==-not-symmetric-or-inconsistent-with-!=', field, wa or b'', what, replay)
+                if eq and ha != hb:
+                    book.add('index-pair', cls, 'equal-but-different-hash', field, wa or b'', what, replay)
+                if eq and ia != ib:
+                    book.add('index-pair', cls, 'equal-but-different-index', field, wa or b'', what + f' index {hx(ia)} | {hx(ib)}', replay)
+                if ta.split(':')[0] == tb.split(':')[0] and not eq:
+                    book.add('index-pair', cls, 'same-value-not-equal', field, wa or b'', what, replay)
+                if wa is not None and wb is not None and wa != wb and ia == ib and not (cls in IP_CLASSES and field == 'labels'):
+                    # the label stack of a labelled / VPN route is not in the property's list (family, path
+                    # identifier, prefix, RD): it is the same route with another binding
+                    book.add('index-pair', cls, 'differ-on-the-wire-same-index', field, wa, what + f' index {hx(ia)}', replay)
+                ctx.nontrivial(['pair', name, ta, tb, hx(wa or b''), hx(wb or b'')])
+                if eq and wa != wb:
+                    ctx.sample({'stream': 'pair', 'group': name, 'a': str(a)[:70], 'b': str(b)[:70], 'field': field, '==': eq, 'same_hash': ha == hb, 'same_index': ia == ib}, cap=20)
+
+
+# ---------------------------------------------------------------------------------------------
 
 
 def run(ctx: Ctx) -> None:
@@ -1105,6 +1309,7 @@ def run(ctx: Ctx) -> None:
         'index stream: pairs of abstract IP-family NLRIs (INET/Label/IPVPN, both AFIs, masks at byte boundaries and at 98/105, path-id none/0/explicit incl. the ASCII-sentinel prefixes) that are equal, '
         'differ in exactly one of family/path-id/mask/prefix/RD, differ only in labels, or are the shapes that collided before the index was repaired, built through the real from_cidr; non-trivial = both objects built and compared; '
         'framing stream: for every registered family, bytes produced by the real encoder (alone, truncated, followed by junk, followed by a second encoded NLRI) and synthetic frames at the length boundaries of the kind; non-trivial = the real decoder accepted the frame; '
+        'pair stream: for every family (five EVPN route types, MVPN, MUP, VPLS, RTC, SR-policy, labelled, VPN, FlowSpec, BGP-LS) a base route built by the class factory and variants that change exactly one argument (also those == ignores by design: ESI, label stacks of 1, 2, 3 labels), each also in its decoded form; every pair that differs in at most one field is held to a == b ⇒ same hash and index, wire differs ⇒ index differs; '
         'object streams: every route of every shipped configuration, every cmd/raw line of qa/encoding, qa/decoding samples, generated route/vpls/flow text, every make_*/from_*/create classmethod swept over its boundary pools; '
         'non-trivial = the object passed pack → unpack and all laws were evaluated; distinct = distinct (class, bytes)'
     )
@@ -1114,6 +1319,7 @@ def run(ctx: Ctx) -> None:
     by_value: dict = {}
     object_streams(ctx, book, cover, pool, by_value, extra_factory=25 if quick else 300, n_text=1500 if quick else 20000)
     index_stream(ctx, book, 6000 if quick else 100000)
+    pair_stream(ctx, book)
     if ctx.driver_ok:
         framing_stream(ctx, book, pool, 3 if quick else 12)
     else:
